@@ -111,6 +111,10 @@ func (w *writer) ReadFrom(r io.Reader) (int64, error) {
 		if int(w.count) < max {
 			max = int(w.count)
 		}
+		if max < len(w.buf) {
+			// Write may have buffered more than that
+			max = len(w.buf)
+		}
 		n, er := r.Read(w.buf[len(w.buf):max])
 		if n == 0 {
 			err = er
